@@ -96,6 +96,74 @@ def _hook_default(name, self, a, k):
     return None
 
 
+ACCS = (("get", "gsrc", "gmark"), ("set", "ssrc", "smark"), ("del", "dsrc", "dmark"))
+
+
+def owners(shape):
+    """(class, name) -> index of the member that holds that name in that class body (first definition wins)"""
+    own = {}
+    for i, m in enumerate(shape["members"]):
+        if m["kind"] not in ("iattr", "helper"):
+            own.setdefault((m["in"], m["name"]), i)
+    return own
+
+
+def accessor_plan(shape):
+    """for every property member: where each of its accessor functions comes from.
+    {mid: {"get"|"set"|"del": None | ("own", marked) | ("method", j) | ("base", j, which)}}
+      ("method", j):      the function object of method member j (which is at the same time a method under its own name) —
+                          old-style  target = property(get_target, set_target)
+      ("base", j, which): the accessor of the base class's property j of the same name — Base.prop.getter(f) / .setter(f)"""
+    own = owners(shape)
+    mem = shape["members"]
+    plans = {}
+    order = [i for i, m in enumerate(mem) if m["kind"] == "prop" and m["in"] == "base"] + \
+            [i for i, m in enumerate(mem) if m["kind"] == "prop" and m["in"] == "sub"]
+    for i in order:
+        m = mem[i]
+        if own.get((m["in"], m["name"])) != i:
+            continue
+        has_del = m["del"] if m.get("del") is not None else not (m.get("get") or m.get("set"))
+        present = {"get": bool(m.get("get")), "set": bool(m.get("set")), "del": bool(has_del)}
+        plan = {}
+        for which, srck, markk in ACCS:
+            src = m.get(srck)
+            pl = ("own", bool(m.get(markk))) if present[which] else None
+            if isinstance(src, str) and src.startswith("m:"):
+                j = own.get((m["in"], src[2:]))
+                if j is None and m["in"] == "sub":
+                    j = own.get(("base", src[2:]))
+                if j is not None and mem[j]["kind"] in METHOD_KINDS:
+                    pl = ("method", j)
+            elif src == "base" and m["in"] == "sub":
+                j = own.get(("base", m["name"]))
+                if j is not None and j in plans:
+                    pl = ("base", j, which) if plans[j][which] is not None else None
+            plan[which] = pl
+        plans[i] = plan
+    return plans
+
+
+class Raiser:
+    """class attribute whose access ON THE CLASS raises while armed and while a get_metadata call of the harness is in
+    progress (the metadata scan does getattr(cls, name)) — a transient fault during the scan; requests are not affected.
+    mode once: disarms itself after the first raise; park: does not raise but calls back from inside the scan"""
+    def __init__(self, mode, ctl):
+        self.mode, self.ctl = mode, ctl
+
+    def __get__(self, inst, owner):
+        if inst is None and self.ctl["armed"] and self.ctl["scanning"]:
+            if self.mode == "park":
+                self.ctl["armed"] = False
+                if self.ctl["on_park"]:
+                    self.ctl["on_park"]()
+                return 7
+            if self.mode == "once":
+                self.ctl["armed"] = False
+            raise RuntimeError("attribute not available right now")
+        return 7
+
+
 def build(shape, srv):
     """Returns Built with .obj, .log, .refused_marks (indices whose own @expose raised), .cls"""
     log = []
@@ -104,10 +172,17 @@ def build(shape, srv):
     ns = {"base": {}, "sub": {}}
     inst = {}
 
+    raiser_ctl = {"armed": False, "on_park": None, "scanning": False}
+    plans = accessor_plan(shape)
+    funcs = {}       # member index -> raw function object of a method member
+
     def mk(mid, acc, fname, flavour, hook=None):
         def note(a):
-            log.append([mid, acc])
-            return "ran:%d:%s" % (mid, acc)
+            # a function that also serves as accessor of a property logs as that accessor when it is invoked as one
+            alias = getattr(body, "_c02_as", None)
+            e = list(alias) if alias and not (a and a[0] == TOKEN) else [mid, acc]
+            log.append(e)
+            return "ran:%d:%s" % (e[0], e[1])
         if flavour == "static":
             def body(*a, **k):
                 return note(a)
@@ -155,7 +230,11 @@ def build(shape, srv):
                 refused.append(mid)
             return thing
 
-    for mid, m in enumerate(shape["members"]):
+    seq = [i for i, m in enumerate(shape["members"]) if m["kind"] != "prop"] + \
+          [i for i, m in enumerate(shape["members"]) if m["kind"] == "prop" and m["in"] == "base"] + \
+          [i for i, m in enumerate(shape["members"]) if m["kind"] == "prop" and m["in"] == "sub"]
+    for mid in seq:
+        m = shape["members"][mid]
         name, kind = m["name"], m["kind"]
         if kind in ("iattr", "helper"):
             if name in inst:
@@ -195,6 +274,7 @@ def build(shape, srv):
         elif kind in METHOD_KINDS:
             hook = name if (kind == "method" and is_dunder(name)) else None
             f = mk(mid, "call", fname, kind, hook)
+            funcs[mid] = f
             if m.get("mark"):
                 f = own_mark(f, mid)
             if m.get("oneway"):
@@ -205,21 +285,31 @@ def build(shape, srv):
                 f = classmethod(f)
             d[name] = f
         elif kind == "prop":
-            has_del = m["del"] if m.get("del") is not None else not (m.get("get") or m.get("set"))
-            g = mk(mid, "get", fname, "prop") if m.get("get") else None
-            s = mk(mid, "set", fname, "prop") if m.get("set") else None
-            dl = mk(mid, "del", fname, "prop") if has_del else None
-            # @expose directly on an accessor function (below @property / @x.setter / @x.deleter)
-            if g is not None and m.get("gmark"):
-                g = own_mark(g, mid)
-            if s is not None and m.get("smark"):
-                s = own_mark(s, mid)
-            if dl is not None and m.get("dmark"):
-                dl = own_mark(dl, mid)
+            acc = {}
+            for which, _, _ in ACCS:
+                pl = plans[mid][which]
+                if pl is None:
+                    acc[which] = None
+                elif pl[0] == "own":
+                    f = mk(mid, which, fname, "prop")
+                    if pl[1]:
+                        f = own_mark(f, mid)        # @expose directly on an accessor function (below @property / @x.setter ...)
+                    acc[which] = f
+                elif pl[0] == "method":
+                    f = funcs[pl[1]]                # the very function object that is also bound as a method
+                    f._c02_as = [mid, which]
+                    acc[which] = f
+                else:
+                    f = getattr(ns["base"][name], "f" + which)      # taken over from the base class's property
+                    f._c02_as = [mid, which]
+                    acc[which] = f
+            g, s, dl = acc["get"], acc["set"], acc["del"]
             p = property(g, s, dl)
             if m.get("mark"):
                 p = own_mark(p, mid)        # @expose on the property object marks its first accessor only
             d[name] = p
+        elif kind == "raiser":
+            d[name] = Raiser(m.get("raises", "once"), raiser_ctl)
         elif kind == "cattr":
             d[name] = 2000 + mid
         else:
@@ -240,6 +330,7 @@ def build(shape, srv):
     b = Built()
     b.new_instance = new_instance
     b.obj, b.log, b.refused_marks, b.cls, b.base, b.current = obj, log, sorted(refused), sub, base, current
+    b.raiser_ctl = raiser_ctl
     return b
 
 
@@ -408,6 +499,26 @@ class Rig:
             md = self.daemon.objectsById[self.core.DAEMON_NAME].get_metadata(oid)
         return {k: sorted(md[k]) for k in ("methods", "oneway", "attrs")}
 
+    def metadata_obs(self, oid, built):
+        """one get_metadata call as an observation: the answer or the fact that it raised; a 'park' attribute of the class
+        re-enters get_metadata from inside the scan (recorded under 'nested', it happens BEFORE the outer call returns)"""
+        nested = []
+        def on_park():
+            try:
+                nested.append({"meta": self.metadata(oid)})
+            except Exception as x:
+                nested.append({"meta_error": type(x).__name__})
+        built.raiser_ctl["on_park"] = on_park
+        built.raiser_ctl["scanning"] = True
+        try:
+            out = {"meta": self.metadata(oid)}
+        except Exception as x:
+            out = {"meta_error": type(x).__name__}
+        built.raiser_ctl["scanning"] = False
+        built.raiser_ctl["on_park"] = None
+        out["nested"] = nested
+        return out
+
     def run_shape(self, shape, reqs, ser="serpent"):
         """build, register, metadata, all requests, unregister -> observation"""
         built = build(shape, self.srv)
@@ -437,12 +548,14 @@ class Rig:
             oid = "obj_c02_%d" % i
             oids.append(oid)
             self.daemon.register(o, oid, force=True)
+        for b in builts:
+            b.raiser_ctl["armed"] = True       # from now on a raiser attribute aborts (or re-enters) the metadata scan
         out = []
         try:
             for op in ops:
                 i = op["obj"]
                 if op["op"] == "meta":
-                    out.append({"meta": self.metadata(oids[i])})
+                    out.append(self.metadata_obs(oids[i], builts[objects[i]]))
                 else:
                     out.append(self.request(builts[objects[i]], oids[i], op["req"], ser, obj=insts[i]))
         finally:
